@@ -269,4 +269,40 @@ theorem q2d_and_der_t_correct (zf sf bf : ℝ → ℝ) (x z' s' b' : ℝ)
   refine ((hz.mul hs).add hb).congr_deriv ?_
   simp only [q2dAndDer]
   ring
+
+/-! ### azimuthal derivatives with the real `cos`, `sin` -/
+
+theorem hasDerivAt_cos_mul (m t : ℝ) : HasDerivAt (fun q => cos (m * q)) (-(m * sin (m * t))) t := by
+  have h : HasDerivAt (fun q : ℝ => m * q) m t := by simpa using (hasDerivAt_id' t).const_mul m
+  have := (hasDerivAt_cos (m * t)).comp t h
+  refine this.congr_deriv ?_
+  ring
+
+theorem hasDerivAt_sin_mul (m t : ℝ) : HasDerivAt (fun q => sin (m * q)) (m * cos (m * t)) t := by
+  have h : HasDerivAt (fun q : ℝ => m * q) m t := by simpa using (hasDerivAt_id' t).const_mul m
+  have := (hasDerivAt_sin (m * t)).comp t h
+  refine this.congr_deriv ?_
+  ring
+
+/-- **Zernike, azimuthal derivative** (`zernike_nm_der`): `∂/∂t [ρ cos(mt)] = ρ·(-m sin(mt))`, `∂/∂t [ρ sin(kt)] = ρ·(k cos(kt))` -/
+theorem zernike_dt_real (rad m t : ℝ) :
+    HasDerivAt (fun q => rad * cos (m * q)) (rad * (-m * sin (m * t))) t ∧
+    HasDerivAt (fun q => rad * sin (m * q)) (rad * (m * cos (m * t))) t := by
+  constructor
+  · refine ((hasDerivAt_cos_mul m t).const_mul rad).congr_deriv ?_; ring
+  · exact (hasDerivAt_sin_mul m t).const_mul rad
+
+/-- **2D-Q, azimuthal slope of one azimuthal order, real version**: the third component of `q2dTermB` is `∂/∂t` of its
+first component when `cos(mt)`, `sin(mt)` are the real functions -/
+theorem q2dTermB_dt_real (G : Fam ℝ) (m : ℕ) (da db : List ℝ) (u t : ℝ) :
+    HasDerivAt (fun q => (q2dTermB G m (cos ((m : ℝ) * q)) (sin ((m : ℝ) * q)) da db u).1)
+      (q2dTermB G m (cos ((m : ℝ) * t)) (sin ((m : ℝ) * t)) da db u).2.2 t := by
+  simp only [q2dTermB, npow_eq, ofInt_eq]
+  have hc := hasDerivAt_cos_mul (m : ℝ) t
+  have hs := hasDerivAt_sin_mul (m : ℝ) t
+  have := ((hc.mul_const (q2dRead m (derTable G (u * u) da 0))).add
+    (hs.mul_const (q2dRead m (derTable G (u * u) db 0)))).const_mul (u ^ m)
+  refine this.congr_deriv ?_
+  push_cast
+  ring
 end C10L
